@@ -233,10 +233,11 @@ struct Rep {
     failures: u64,
     first: Option<String>,
     only_case: Option<u64>,
+    failed_cases: Vec<u64>,
 }
 impl Rep {
     fn new(family: &'static str, func: &str, only_case: Option<u64>) -> Rep {
-        Rep { family, func: func.to_string(), cases: 0, failures: 0, first: None, only_case }
+        Rep { family, func: func.to_string(), cases: 0, failures: 0, first: None, only_case, failed_cases: vec![] }
     }
     // returns true when this case is to be evaluated
     fn want(&mut self) -> bool {
@@ -248,6 +249,12 @@ impl Rep {
     }
     fn fail(&mut self, input: String, observed: String, required: String) {
         self.failures += 1;
+        if self.failed_cases.last() != Some(&self.cases) {
+            self.failed_cases.push(self.cases);
+        }
+        if std::env::var("TWIN_ALL").is_ok() {
+            eprintln!("FAIL case {} | {} | {} | {}", self.cases, input, observed, required);
+        }
         if self.first.is_none() {
             self.first = Some(format!(
                 "{{\"case\":{},\"input\":{:?},\"observed\":{:?},\"required\":{:?}}}",
@@ -257,11 +264,12 @@ impl Rep {
     }
     fn print(&self) {
         println!(
-            "{{\"family\":\"{}\",\"fn\":\"{}\",\"cases\":{},\"failures\":{},\"first\":{}}}",
+            "{{\"family\":\"{}\",\"fn\":\"{}\",\"cases\":{},\"failures\":{},\"failed_cases\":{:?},\"first\":{}}}",
             self.family,
             self.func,
             self.cases,
             self.failures,
+            if self.failed_cases.len() <= 2000 { self.failed_cases.clone() } else { self.failed_cases[..2000].to_vec() },
             self.first.clone().unwrap_or("null".to_string())
         );
     }
@@ -771,6 +779,85 @@ fn fam_listfold(_func: Option<&str>, only: Option<u64>) {
     rep.print();
 }
 
+// C05, bounded stand-in for the ASSUMED list decider (list_is_empty / list_inhabited): subtyping between a
+// tuple shape and a union of tuple shapes over basic item types, against brute force over all lists of
+// length <= 4 whose elements are one of three basic values.
+fn fam_listneg(_func: Option<&str>, only: Option<u64>) {
+    let mut rep = Rep::new("listneg", "list_is_empty", only);
+    let basics = [SubTypeTag::String, SubTypeTag::Number, SubTypeTag::Boolean];
+    type Shape = (Vec<SubTypeTag>, Option<SubTypeTag>);
+    let mut shapes: Vec<Shape> = vec![];
+    for len in 0..=2usize {
+        let mut idx = vec![0usize; len];
+        loop {
+            let pre: Vec<SubTypeTag> = idx.iter().map(|i| basics[*i]).collect();
+            shapes.push((pre.clone(), None));
+            for r in [SubTypeTag::String, SubTypeTag::Number] {
+                shapes.push((pre.clone(), Some(r)));
+            }
+            let mut k = 0;
+            loop {
+                if k == len { break; }
+                idx[k] += 1;
+                if idx[k] < 2 { break; }   // prefixes over {string, number} only, to keep the product small
+                idx[k] = 0;
+                k += 1;
+            }
+            if k == len { break; }
+        }
+    }
+    let in_shape = |s: &Shape, l: &[SubTypeTag]| -> bool {
+        if l.len() < s.0.len() { return false; }
+        if l.len() > s.0.len() && s.1.is_none() { return false; }
+        l.iter().enumerate().all(|(i, v)| if i < s.0.len() { *v == s.0[i] } else { Some(*v) == s.1 })
+    };
+    // all lists of length <= 4 over the three basic values
+    let mut lists: Vec<Vec<SubTypeTag>> = vec![vec![]];
+    let mut frontier: Vec<Vec<SubTypeTag>> = vec![vec![]];
+    for _ in 0..4 {
+        let mut next = vec![];
+        for l in &frontier {
+            for b in basics {
+                let mut l2 = l.clone();
+                l2.push(b);
+                next.push(l2);
+            }
+        }
+        lists.extend(next.iter().cloned());
+        frontier = next;
+    }
+    let mk = |ctx: &mut SemTypeContext, s: &Shape| -> Rc<SemType> {
+        let pre: Vec<Rc<SemType>> = s.0.iter().map(|t| Rc::new(SemType::new_basic(t.code()))).collect();
+        let rest = s.1.map(|t| Rc::new(SemType::new_basic(t.code())));
+        Rc::new(ctx.tuple(pre, rest))
+    };
+    for a in &shapes {
+        for b in &shapes {
+            for c in &shapes {
+                if !rep.want() {
+                    continue;
+                }
+                // is  a <: b | c ?
+                let spec = lists.iter().all(|l| !in_shape(a, l) || in_shape(b, l) || in_shape(c, l));
+                let mut ctx = SemTypeContext::new();
+                let ta = mk(&mut ctx, a);
+                let tb = mk(&mut ctx, b);
+                let tc = mk(&mut ctx, c);
+                let u = match tb.union(&tc) { Ok(u) => u, Err(_) => continue };
+                match ta.is_subtype(&u, &mut ctx) {
+                    Ok(r) => {
+                        if r != spec {
+                            rep.fail(format!("tuple shapes (prefix, rest): {:?} <: {:?} | {:?}", a, b, c), format!("is_subtype = {}", r), format!("{} (brute force over all lists of length <= 4)", spec));
+                        }
+                    }
+                    Err(e) => rep.fail(format!("{:?} <: {:?} | {:?}", a, b, c), format!("Err({})", e), "Ok".into()),
+                }
+            }
+        }
+    }
+    rep.print();
+}
+
 fn main() {
     let args: Vec<String> = std::env::args().collect();
     let fam = args.get(1).map(|s| s.as_str()).unwrap_or("all");
@@ -799,6 +886,7 @@ fn main() {
         "semtype" => fam_semtype(f, only),
         "schema" => fam_schema(f, only),
         "listfold" => fam_listfold(f, only),
+        "listneg" => fam_listneg(f, only),
         _ => {
             fam_bdd(f, only);
             fam_dnf(f, only);
